@@ -99,6 +99,9 @@ impl WorldB {
         if adv >= 2 && in_flight > 0 && rng.chance(1, if adv >= 3 { 25 } else { 50 }) {
             return Op::new(K_REFRAME, slot as u64, dir as u64, rng.below(in_flight as u64), rng.below(8));
         }
+        if adv >= 1 && matches!(fam, "hostile" | "handshake") && rng.chance(1, 12) && self.slots[slot].c2s.iter().any(|&ix| self.ledger[ix].ptype == T_REQUEST) {
+            return Op::new(K_TAGSQUAT, slot as u64, rng.below(8), rng.below(8), rng.below(1008 * 8));
+        }
         match fam {
             "handshake" => {
                 if adv >= 2 && rng.chance(1, 30) {
